@@ -411,7 +411,7 @@ pub fn run(a: &Args, rep: &mut Report) {
     rep.enumerated(n);
     rep.count_n("reader/interrupted placements (exhaustive 0-2 repetitions per read)", n);
     // 3. random long streams
-    let nrand: u64 = if a.thorough() { 400_000 } else { 20_000 };
+    let nrand: u64 = if a.thorough() { 800_000 } else { 80_000 };
     for i in 0..nrand {
         if !a.mine(i) {
             continue;
